@@ -597,6 +597,9 @@ impl ObjValue {
 	}
 
 	fn get_idx(&self, key: IStr, core: CoreIdx) -> Result<Option<Val>> {
+		// Assertions may read this very field: run them before the field is marked as pending,
+		// otherwise the field body is evaluated once for the assertion and once more for the caller.
+		self.run_assertions()?;
 		let cache_key = (key.clone(), core);
 		{
 			let mut cache = self.0.value_cache.borrow_mut();
